@@ -10,6 +10,9 @@ Proved here, for ALL inputs of the model:
   * node / top / index shape of `fromMrs m` (`nodes_shape`, `top_shape`, `index_shape`);
   * totality of `fromMrs` when the scope the top selects has a representative
     (`fromMrs_total_partial`), and the counter-example without it (`fromMrs_cex_mutual_args`, F08).
+  * the way back emits one predication per node in order, so the round trip returns the
+    predications in source order with predicate/constant/lnk/surface/base unchanged and no
+    icons (`fromDmrs_rels`, `roundtrip_predications`).
 Not proved (direct oracle + correspondence only): isomorphism of `fromDmrs (fromMrs m)` with the
 stripped source, equality of the second conversion.
 -/
@@ -390,6 +393,31 @@ theorem index_shape (m : MRS) (d : DMRS) (h : fromMrs m = .ok d) :
     simp only [Option.bind_some]
     obtain ⟨n, hn⟩ := ivToNid_isSome m v e he hq hiv
     rw [hn]; simp
+
+/-! ## 2b. The way back keeps the predications -/
+
+/-- `mrs.from_dmrs` emits exactly one predication per node, in node order, with the node's
+predicate, constant, lnk, surface and base, and no individual constraints — for every choice
+of scope labels. -/
+theorem fromDmrs_rels (chosen : List Var) (d : DMRS) (m2 : MRS)
+    (h : fromDmrs chosen d = .ok m2) :
+    m2.rels.map epFace = d.nodes.map nodeFace ∧ m2.icons = [] :=
+  fromDmrs_rels_aux chosen d m2 h
+
+/-- Round trip, positional part of "yields an MRS isomorphic to the original …": the
+predications come back in the source order with predicate, constant, lnk, surface and base
+unchanged, and the individual constraints are gone. -/
+theorem roundtrip_predications (m : MRS) (hN : BaseIdsDistinct m) (chosen : List Var)
+    (d : DMRS) (m2 : MRS) (h1 : fromMrs m = .ok d) (h2 : fromDmrs chosen d = .ok m2) :
+    m2.rels.map epFace = m.rels.map epFace ∧ m2.icons = [] := by
+  obtain ⟨hr, hi⟩ := fromDmrs_rels chosen d m2 h2
+  obtain ⟨hlen, hsh⟩ := nodes_shape m hN d h1
+  refine ⟨?_, hi⟩
+  rw [hr]
+  apply nodes_faces m d hlen
+  intro i e he
+  obtain ⟨n, hn, _, h1, h2, h3, h4, h5, _⟩ := hsh i e he
+  exact ⟨n, hn, h1, h2, h3, h4, h5⟩
 
 /-! ## 3. Totality -/
 
